@@ -728,6 +728,51 @@ pub fn c06_cases(c: &Corpus, quick: bool) -> Vec<IoRun> {
         p.push(po(op));
         out.push(IoRun { pool: p, ..Default::default() });
     }
+    // long batches (block-wise implementations of Montgomery's trick): lengths around multiples of 64, mixed Z
+    for l in [63usize, 64, 65, 66, 128, 129, 130, 200] {
+        let idxs: Vec<usize> = (0..l).map(|i| i % 3).collect();
+        let mut ks = vec![0usize, l - 1, l / 2];
+        ks.extend((64..l).step_by(64));
+        for k in ks {
+            for conv in [true, false] {
+                let mut p = base.clone();
+                p.push(po(if conv {
+                    EOp::BatchConvert(idxs.clone(), k)
+                } else {
+                    EOp::NormalizeBatch(idxs.clone(), k)
+                }));
+                out.push(IoRun { pool: p, ..Default::default() });
+            }
+        }
+    }
+    // affine conversion of every identity representative the application can reach
+    for prog in [
+        vec![po(EOp::Generator), po(EOp::PlusMinusOneTimes(0)), po(EOp::IntoAffine(1))],
+        vec![po(EOp::Generator), po(EOp::MulU64(0, 5)), po(EOp::PlusMinusOneTimes(1)), po(EOp::IntoAffine(2))],
+        vec![po(EOp::Decode(hex(&c.valid[9]))), po(EOp::PlusMinusOneTimes(0)), po(EOp::AffineRoundTrip(1))],
+        vec![po(EOp::Generator), po(EOp::PlusMinusOneTimes(0)), po(EOp::NormalizeBatch(vec![1, 0], 0))],
+        vec![po(EOp::Generator), po(EOp::SelfSub(0)), po(EOp::IntoAffine(1))],
+        vec![po(EOp::IdentityConst), po(EOp::IntoAffine(0))],
+    ] {
+        out.push(IoRun { pool: prog, ..Default::default() });
+    }
+    // an entropy source that dries up after n words (try_fill_bytes starts failing in mid-use)
+    for n in [1u64, 4, 5, 6, 9, 10, 11, 15, 20, 40] {
+        for which in 0..3 {
+            let plan = RngPlan {
+                seed: 4242 + n,
+                windows: vec![],
+                try_fill_fails: false,
+                try_fill_fails_after: Some(n),
+            };
+            let op = match which {
+                0 => EOp::SampleElement(plan),
+                1 => EOp::SampleAffine(plan),
+                _ => EOp::UniformRand(plan),
+            };
+            out.push(IoRun { pool: vec![po(op)], ..Default::default() });
+        }
+    }
     // from_random_bytes on structured strings: every valid corpus encoding, counters, lengths
     let mut frb: Vec<Vec<u8>> = Vec::new();
     for b in c.valid.iter().take(if quick { 24 } else { 72 }) {
@@ -773,6 +818,7 @@ pub fn c06_cases(c: &Corpus, quick: bool) -> Vec<IoRun> {
                         fault: fault.clone(),
                     }],
                     try_fill_fails: k % 2 == 0,
+                    try_fill_fails_after: None,
                 };
                 for which in 0..3 {
                     let op = match which {
